@@ -617,8 +617,9 @@ type Exit struct {
 	Kind  ExitKind
 	Block *ssa.BasicBlock // block whose Must() set applies
 	Ret   *ssa.Return
-	Extra []string // additional atoms known on this exit (ok(tail call))
-	Desc  string   // rendered returned error (for reject sites)
+	Val   ssa.Value // the (resolved) verdict value this exit returns
+	Extra []string  // additional atoms known on this exit (ok(tail call))
+	Desc  string    // rendered returned error (for reject sites)
 	Pos   token.Pos
 }
 
@@ -675,7 +676,7 @@ func (ff *FuncFacts) Exits() []Exit {
 func (ff *FuncFacts) classify(v ssa.Value, b *ssa.BasicBlock, ret *ssa.Return, depth int) []Exit {
 	pos := ret.Pos()
 	mk := func(k ExitKind, extra []string, desc string) []Exit {
-		return []Exit{{Kind: k, Block: b, Ret: ret, Extra: extra, Desc: desc, Pos: pos}}
+		return []Exit{{Kind: k, Block: b, Ret: ret, Val: v, Extra: extra, Desc: desc, Pos: pos}}
 	}
 	desc := ff.Term(v)
 	if isErrorType(v.Type()) {
